@@ -224,6 +224,33 @@ def main():
                 at, at, vals, ln, here[1:], ab[1:], want[:80]), {"kind": "impl-vs-spec", "len": ln, "at": at, "vals": vals, "here": here, "abs": ab, "want": want})
             break
 
+    # 4. write then read through the same handle, close, reopen, compare (out-of-place encodings keep
+    #    the read and the write position in different files)
+    OOP_KEY = "C17/oop/read-while-write-in-progress-drops-samples"
+    noop = 0
+    for it in range(12 if not chk.thorough else 120):
+        ln = rng.randint(20, 150); at = rng.randint(0, ln - 1); k = rng.randint(1, 6)
+        vals = [200 + j for j in range(k)]
+        rs = rng.randint(0, ln - 1); rn = rng.randint(1, 12)
+        for enc in ("none", "gzip", "bzip2", "lzma", "sie"):
+            base = [(7 * j) % 199 for j in range(ln)]
+            case = dict(enc=enc, raws=[dict(name="a", type="UINT8", vals=base)], ops=[])
+            dd = os.path.join(work, "o"); C.make_dirfile(dd, case)
+            ops = ["o 1", "p a %d %d u8 %s" % (at, k, " ".join(map(str, vals))), "g a %d %d u8" % (rs, rn), "x", "g a 0 %d u8" % (ln + 20)]
+            rcp, outp = vlib.sh([exe, dd], inp=("\n".join(ops) + "\n").encode(), timeout=20)
+            lines = outp.strip().split("\n")
+            expd = list(base); expd[at:at + k] = vals
+            w_read = "g %d 0 %s" % (len(expd[rs:rs + rn]), " ".join(map(str, expd[rs:rs + rn])))
+            w_all = "g %d 0 %s" % (len(expd), " ".join(map(str, expd)))
+            noop += 1; evals += 1
+            if len(lines) < 5 or lines[2].strip() != w_read.strip() or lines[4].strip() != w_all.strip():
+                found_any = True
+                chk.violation(OOP_KEY if enc in ("gzip", "bzip2", "lzma") else "C17/write-read-close/" + enc,
+                              "%s: putdata(a,%d,%s); getdata(a,%d,%d); close; reopen: read gave %s (want %s), file afterwards %s (want %s)" % (
+                                  enc, at, vals, rs, rn, lines[2][:60] if len(lines) > 2 else "-", w_read[:60], lines[-1][:80], w_all[:80]),
+                              {"kind": "impl-vs-spec", "enc": enc, "len": ln, "put_at": at, "vals": vals, "read": [rs, rn], "got": lines, "want_after": w_all})
+                break
+    chk.cov["write_read_close_histories"] = noop
     chk.cov["evaluations"] = evals
     chk.cov["distinct_nontrivial"] = len(nontriv)
     chk.cov["histories"] = len(cases); chk.cov["histories_in_model_scope"] = len(inmodel); chk.cov["put_here_pairs"] = nput
